@@ -19,6 +19,7 @@ import (
 	"bytes"
 	"encoding/hex"
 	"fmt"
+	"strings"
 	"testing"
 
 	"pgregory.net/rapid"
@@ -58,6 +59,9 @@ type sigCase struct {
 	otherKeySign func(effMsg []byte) ([]byte, error)
 
 	accept, reject, skipped int
+	// per candidate kind: how often both sides accepted / rejected (flushed by finish as
+	// kind/<kind>/acc and kind/<kind>/rej)
+	kindAcc, kindRej map[string]int
 
 	// One signature buffer and one message buffer per case: every candidate is copied into them and
 	// handed to Verify as a sub-slice, so the same backing array (same pointer, often the same length)
@@ -139,11 +143,25 @@ func (c *sigCase) try(t *rapid.T, kind string, sig, msg []byte) {
 	if (err == nil) != want {
 		t.Fatalf("%v\n candidate kind=%s\n sig=%x\n msg=%x\n Tink Verify err=%v but independent strict verifier accepts=%v", c, kind, sig, msg, err, want)
 	}
+	if c.kindAcc == nil {
+		c.kindAcc, c.kindRej = map[string]int{}, map[string]int{}
+	}
 	if want {
 		c.accept++
+		c.kindAcc[kindClass(kind)]++
 	} else {
 		c.reject++
+		c.kindRej[kindClass(kind)]++
 	}
+}
+
+// kindClass is the candidate kind for the counters; the one kind that carries a drawn number
+// (pss-std-salt-47) loses it.
+func kindClass(kind string) string {
+	if strings.HasPrefix(kind, "pss-std-salt-") {
+		return "pss-std-salt-#"
+	}
+	return kind
 }
 
 // tryRaw prepends the correct prefix.
@@ -258,17 +276,28 @@ func (c *sigCase) finish(t *rapid.T, msg []byte, fp evid.H) {
 	if c.accept < 1 || c.accept+c.skipped < 2 {
 		t.Fatalf("%v\n harness: accept side has only %d candidates (%d excluded)", c, c.accept, c.skipped)
 	}
+	c.counts()
+	n := c.accept + c.reject
+	nontrivial := n > 1 || c.variant == tk.Legacy || len(msg) >= 1
+	evid.Case(c.class(), nontrivial, fp.S(c.scheme).S(c.params).S(c.variant).I(int64(c.id)).S(c.route).B(msg).Sum(), func() any {
+		return map[string]any{"case": c.String(), "msg": gen.Hex(msg), "accept": c.accept, "reject": c.reject, "excluded_known": c.skipped}
+	})
+}
+
+// counts adds the candidate counters of a case to the evidence.
+func (c *sigCase) counts() {
 	evid.Add("accept_candidates", int64(c.accept))
 	evid.Add("reject_candidates", int64(c.reject))
 	if c.skipped > 0 {
 		evid.Add("excluded_known", int64(c.skipped))
 	}
 	evid.Add("candidates_in_reused_buffers", int64(c.bufReuse))
-	n := c.accept + c.reject
-	nontrivial := n > 1 || c.variant == tk.Legacy || len(msg) >= 1
-	evid.Case(c.class(), nontrivial, fp.S(c.scheme).S(c.params).S(c.variant).I(int64(c.id)).S(c.route).B(msg).Sum(), func() any {
-		return map[string]any{"case": c.String(), "msg": gen.Hex(msg), "accept": c.accept, "reject": c.reject, "excluded_known": c.skipped}
-	})
+	for k, n := range c.kindAcc {
+		evid.Add("kind/"+k+"/acc", int64(n))
+	}
+	for k, n := range c.kindRej {
+		evid.Add("kind/"+k+"/rej", int64(n))
+	}
 }
 
 // drawRouteVariantID draws the construction route and a compatible variant / key id.
